@@ -22,9 +22,14 @@ package main
 
 import (
 	"fmt"
+	"net/netip"
+	"strings"
 	"time"
 
+	discovery "k8s.io/api/discovery/v1"
+
 	"github.com/projectcalico/calico/libcalico-go/lib/backend/model"
+	cnet "github.com/projectcalico/calico/libcalico-go/lib/net"
 
 	"verif/internal/calcgen"
 	"verif/internal/harness"
@@ -125,6 +130,87 @@ func allTiersAbsent(sc *calcgen.Scenario, names []string) bool {
 	return true
 }
 
+// endpointSliceChangedService reports whether the history delivered some EndpointSlice key with two
+// different kubernetes.io/service-name labels.
+func endpointSliceChangedService(sc *calcgen.Scenario) bool {
+	seen := map[int]string{}
+	for _, op := range sc.H.Ops {
+		for _, kv := range op.KVs {
+			if kv.Val == calcgen.Absent {
+				continue
+			}
+			es, ok := sc.U.Keys[kv.Key].Values[kv.Val].New().(*discovery.EndpointSlice)
+			if !ok {
+				continue
+			}
+			svc := es.Labels["kubernetes.io/service-name"]
+			if old, had := seen[kv.Key]; had && old != svc {
+				return true
+			}
+			seen[kv.Key] = svc
+		}
+	}
+	return false
+}
+
+func onlyTypesBorrowed(fields []string) bool {
+	for _, f := range fields {
+		if f != "types" && f != "borrowed" {
+			return false
+		}
+	}
+	return len(fields) > 0
+}
+
+// wepInForeignBlockWithoutAllocation identifies the failing input of the known route finding: dst
+// is the /32 (or /128) of an address of a local workload endpoint of the final state, and that
+// address lies inside an IPAM block of the final state whose affinity is another node and which
+// yields no per-address route for it (no allocation entry for the address, or one without a node
+// attribute, or one owned by the block's own node).
+func wepInForeignBlockWithoutAllocation(sc *calcgen.Scenario, dst string) bool {
+	pfx, err := netip.ParsePrefix(dst)
+	if err != nil || pfx.Bits() != pfx.Addr().BitLen() {
+		return false
+	}
+	addr := pfx.Addr()
+	u, s := sc.U, sc.H.Final
+	local := false
+	for _, k := range u.LocalEndpointKeys() {
+		w, ok := u.EffectiveValue(s, k).(*model.WorkloadEndpoint)
+		if !ok || w == nil {
+			continue
+		}
+		for _, n := range append(append([]cnet.IPNet{}, w.IPv4Nets...), w.IPv6Nets...) {
+			if a, ok := netip.AddrFromSlice(n.IP); ok && a.Unmap() == addr {
+				local = true
+			}
+		}
+	}
+	if !local {
+		return false
+	}
+	for _, k := range u.KeysOfClass(calcgen.ClassBlock) {
+		b, ok := u.EffectiveValue(s, k).(*model.AllocationBlock)
+		if !ok || b == nil {
+			continue
+		}
+		bp := u.Keys[k].Key.(model.BlockKey).CIDR
+		if !bp.Contains(addr) || b.Host() == "" || b.Host() == calcgen.LocalHost {
+			continue
+		}
+		routed := false
+		for _, al := range b.NonAffineAllocations() {
+			if a, ok := netip.AddrFromSlice(al.Addr.IP); ok && a.Unmap() == addr && al.Host != "" {
+				routed = true
+			}
+		}
+		if !routed {
+			return true
+		}
+	}
+	return false
+}
+
 // compare reports one violation per distinct kind of difference (class, kind, differing fields).
 func compare(c *harness.Case, sc *calcgen.Scenario, prefix, legend string, a, b *shadowdp.State, extra map[string]any) {
 	entries := shadowdp.DiffEntries(a, b)
@@ -132,8 +218,20 @@ func compare(c *harness.Case, sc *calcgen.Scenario, prefix, legend string, a, b 
 	for _, e := range entries {
 		key := prefix + ":" + e.Key()
 		if len(e.TiersOnlyDefaultAction) > 0 && allTiersAbsent(sc, e.TiersOnlyDefaultAction) {
-			// only the default_action of tiers whose Tier resource is absent from the final state
-			key += "@absent-tier"
+			// Only the default_action of tiers whose Tier resource is absent from the final state
+			// differs (fixed in /repo as 32398ee; one key for wep, hep and the async variant).
+			key = "history-dependence:tiers.default_action@absent-tier"
+		}
+		if e.Class == "ipset" && strings.HasPrefix(e.ID, "svc") && endpointSliceChangedService(sc) {
+			// serviceindex.UpdateEndpointSlice accounts the OLD slice's members against the NEW
+			// slice's service when the kubernetes.io/service-name label of a slice changes.
+			key = "history-dependence:service-ipset@endpointslice-service-name-changed"
+		}
+		if e.Class == "route" && e.Kind == "differs" && onlyTypesBorrowed(e.Fields) && wepInForeignBlockWithoutAllocation(sc, e.ID) {
+			// Known finding: RouteTrie.UpdateBlockRoute/RemoveBlockRoute do not re-evaluate child
+			// routes, so this /32 takes `borrowed` and the REMOTE_WORKLOAD bit from the enclosing
+			// block only if the block was delivered before the endpoint.
+			key = "order-dependence:route:wep-in-foreign-block-without-allocation"
 		}
 		if seen[key] {
 			continue
